@@ -143,6 +143,79 @@ def build_nonempty(fns):
     return [sc]
 
 
+def _configurable(path):
+    """configurable_constants! declarations of a source file: name -> (default value, release_fixed?)"""
+    src = open(path).read()
+    out = {}
+    for m in re.finditer(r"ref (\w+): (\w+) = (release_fixed\()?([^;\n]+?)\)?;", src):
+        e = re.sub(r"(\d)_(\d)", r"\1\2", m.group(4))
+        if re.fullmatch(r"[\d\s()+\-*/]+", e):
+            out[m.group(1)] = (int(eval(e.replace("/", "//"))), bool(m.group(3)))
+    return out
+
+
+def build_config_space(fns):
+    """Chunk-size configuration of a shipped (release) build, over the whole configuration space: a constant declared
+    `release_fixed(v)` has the value v whatever the environment says, any other configurable constant can be set to any value
+    through HF_XET_<NAME>.  Chunker::new (its assertions are the only constraints on the target size) computes the maximum chunk
+    length as target * MAXIMUM_CHUNK_MULTIPLIER; it must not exceed the wire-format limit merkledb::constants::MAXIMUM_CHUNK_SIZE
+    that the validating readers enforce, and the minimum must stay positive."""
+    f = mir.find_fn(fns, r"chunking::<impl at [^>]*>::new$")
+    body = "\n".join(st for b in f.order for st in f.blocks[b][0]) + "\n" + "\n".join(f.blocks[b][1] for b in f.order)
+    if not (re.search(r"<MAXIMUM_CHUNK_MULTIPLIER as Deref>::deref", body) and re.search(r"MulWithOverflow\(copy _1, ", body)
+            and re.search(r"<MINIMUM_CHUNK_DIVISOR as Deref>::deref", body)):
+        raise LookupError("Chunker::new no longer derives its limits as target * MAXIMUM_CHUNK_MULTIPLIER / target / MINIMUM_CHUNK_DIVISOR")
+    dflt = mir.find_fn(fns, r"chunking::<impl at [^>]*>::default$")
+    dbody = "\n".join(dflt.blocks[b][1] for b in dflt.order)
+    if not re.search(r"<TARGET_CHUNK_SIZE as Deref>::deref", dbody):
+        raise LookupError("Chunker::default no longer takes its target from TARGET_CHUNK_SIZE")
+    cfg = _configurable(os.path.join(REPO, "deduplication/src/constants.rs"))
+    wire = symex.const_table([os.path.join(REPO, "merkledb/src/constants.rs")])
+    for need in ("TARGET_CHUNK_SIZE", "MAXIMUM_CHUNK_MULTIPLIER", "MINIMUM_CHUNK_DIVISOR"):
+        if need not in cfg:
+            raise LookupError("configurable constant %s not found" % need)
+    if "MAXIMUM_CHUNK_SIZE" not in wire:
+        raise LookupError("merkledb::constants::MAXIMUM_CHUNK_SIZE not found")
+    sc = smt.Script("c15_chunk_size_configuration")
+    W = 128  # products of two 64-bit values without wrap-around
+    names = {"TARGET_CHUNK_SIZE": "T", "MAXIMUM_CHUNK_MULTIPLIER": "M", "MINIMUM_CHUNK_DIVISOR": "D"}
+    for n, v in names.items():
+        sc.declare({v: "(_ BitVec %d)" % W})
+        sc.assume("(bvult %s %s)" % (v, bvconst(1 << 64, W)))
+        if cfg[n][1]:
+            sc.assume(mk_eq(v, bvconst(cfg[n][0], W)))  # release_fixed: the environment is ignored
+    # Chunker::new's assertions: power of two, > 64, < u32::MAX; a zero divisor panics
+    sc.assume(mk_eq("(bvand T (bvsub T %s))" % bvconst(1, W), bvconst(0, W)))
+    sc.assume("(bvugt T %s)" % bvconst(64, W))
+    sc.assume("(bvult T %s)" % bvconst(0xFFFFFFFF, W))
+    sc.assume("(bvugt D %s)" % bvconst(0, W))
+    fixed = [n for n in names if cfg[n][1]]
+    sc.query("for every configuration a release build admits (release-fixed: %s) the chunker's maximum chunk length is within the wire limit %d"
+             % (", ".join(fixed) or "none", wire["MAXIMUM_CHUNK_SIZE"][0]), ["(bvugt (bvmul T M) %s)" % bvconst(wire["MAXIMUM_CHUNK_SIZE"][0], W)])
+    sc.query("for every such configuration the minimum chunk length is positive and below the maximum",
+             [mk_not("(and (bvugt (bvudiv T D) %s) (bvult (bvudiv T D) (bvmul T M)))" % bvconst(0, W))])
+    sc.query("witness: the default configuration is admitted", [mk_eq("T", bvconst(cfg["TARGET_CHUNK_SIZE"][0], W)), mk_eq("M", bvconst(cfg["MAXIMUM_CHUNK_MULTIPLIER"][0], W)),
+                                                              mk_eq("D", bvconst(cfg["MINIMUM_CHUNK_DIVISOR"][0], W))], expect="sat", kind="witness")
+    return [sc]
+
+
+def replay_release(model, fnd, prop):
+    """release-profile replay (debug builds accept overrides of release-fixed constants by design)"""
+    env = base_env()
+    env["CARGO_TARGET_DIR"] = os.path.join(BUILD, "replay_target")
+    env["HF_XET_TARGET_CHUNK_SIZE"] = "262144"
+    env["HF_XET_MAXIMUM_CHUNK_MULTIPLIER"] = "4"
+    rc, out = sh(["cargo", "test", "--offline", "--release", "--test", "c15_release_chunk_limit"], cwd=os.path.join(VERIF, "replay"), env=env, timeout=3000,
+                 log=os.path.join(LOGS, "replay_c15_release.log"))
+    path = os.path.join(VERIF, "replay", "tests", "c15_release_chunk_limit.rs")
+    if "test result: FAILED" in out:
+        m = re.search(r"C15 violated: [^\n]*", out)
+        return True, path, m.group(0)[:240] if m else "native replay fails"
+    if "test result: ok. 1 passed" in out:
+        return False, path, "native replay passes: a release build ignores chunk-size overrides"
+    return None, path, "native replay inconclusive (rc=%s)" % rc
+
+
 def replay(model, fnd, prop):
     env = base_env()
     env["CARGO_TARGET_DIR"] = os.path.join(BUILD, "replay_target")
@@ -163,6 +236,9 @@ SMT = [
     Q("c15_session_merge_limits", "session aggregators merged only within limits", "data", build_session,
       functions=["data::file_upload_session::FileUploadSession::register_single_file_clean_completion"], bounds="one decision from an arbitrary state",
       replay=native_test("c15_session_limits", "C15 violated", "native replay passes: every xorb stored by multi-file sessions is within the limits")),
+    Q("c15_chunk_size_configuration", "release builds: every admitted configuration keeps chunks within the wire limit", "deduplication", build_config_space,
+      functions=["deduplication::chunking::Chunker::{new, default}", "deduplication::constants (configurable_constants! declarations)", "merkledb::constants::MAXIMUM_CHUNK_SIZE"],
+      bounds="all 64-bit values of every constant that is not release-fixed", replay=replay_release),
     Q("c15_nonempty_put", "empty xorbs never reach the store", "data", build_nonempty, functions=["data::file_upload_session::FileUploadSession::register_new_xorb_for_upload"],
       bounds="all CFG paths", solvers=("z3", "cvc5-bv")),
 ]
